@@ -1503,7 +1503,11 @@ class DistPearson6(DistContinuous):
             y1 = self._dist1.draw()
             y2 = self._dist2.draw()
         # a denominator that underflowed to zero gives an infinite ratio
-        return self._beta * y1 / y2 if y2 > 0.0 else math.inf
+        if y2 <= 0.0:
+            return math.inf
+        x: float = self._beta * y1 / y2
+        # beta * y1 can exceed the largest float where the ratio does not
+        return x if x == x and x != math.inf else self._beta * (y1 / y2)
 
     def _set_stream(self, stream: StreamInterface):
         """Internal method to initialize the underlying distribution when
